@@ -133,7 +133,12 @@ func explore(prog *ssa.Program, fn *ssa.Function, cfg ExploreConfig) *HarnessRes
 			started++
 			mu.Unlock()
 
+			tp := time.Now()
+			q0, st0 := solver.Queries, solver.Time
 			p := runPath(prog, fn, cfg, solver, it.prefix, nil)
+			if os.Getenv("VERIF_SLOW") != "" && time.Since(tp) > 2*time.Second {
+				fmt.Fprintf(os.Stderr, "SLOW path %v: %v steps=%d queries=%d solver=%v end=%s %s\n", it.prefix, time.Since(tp), p.steps, solver.Queries-q0, solver.Time-st0, p.endKind, p.endMsg)
+			}
 
 			mu.Lock()
 			active--
